@@ -137,6 +137,10 @@ type Scenario struct {
 	LoadDoc Doc    `json:"load_doc,omitempty"`
 	Cut     int    `json:"cut,omitempty"`     // >=0: write only this many bytes of the document
 	Garbage string `json:"garbage,omitempty"` // non-empty: write these bytes instead
+	// write-fault cases
+	Pre   []Op `json:"pre,omitempty"`   // requests before the fault is armed (each creates one new non-ephemeral object)
+	Post  []Op `json:"post,omitempty"`  // requests whose persists fail
+	Limit int  `json:"limit,omitempty"` // RLIMIT_FSIZE in bytes from the arming point on
 }
 
 // ---------------------------------------------------------------- the daemon subprocess
@@ -181,6 +185,11 @@ func startDaemon(bin, dir string, killSpec string, hold []string, strace bool, t
 	d.cmd.Env = append(os.Environ(), "NSQ_VERIF_SOCK="+d.sock)
 	if tag == "k8" {
 		d.cmd.Env = append(d.cmd.Env, "NSQ_VERIF_WAIT="+k8Wait)
+	}
+	if strings.HasPrefix(tag, "fs-") { // fs-<k>-<bytes>: arm the write fault at the k-th completed persist
+		if f := strings.Split(tag, "-"); len(f) == 3 {
+			d.cmd.Env = append(d.cmd.Env, "NSQ_VERIF_FSIZE=persist:after-rename|"+f[1]+"|"+f[2])
+		}
 	}
 	if killSpec != "" {
 		d.cmd.Env = append(d.cmd.Env, "NSQ_VERIF_KILL="+killSpec)
@@ -1178,6 +1187,41 @@ func genChurn(r *lib.Rand, k int, strace bool) Scenario {
 	return sc
 }
 
+func genFault(r *lib.Rand, k int) Scenario {
+	sc := Scenario{Name: fmt.Sprintf("fault-%d", k), Kind: "fault", Limit: []int{1, 8, 20, 32}[r.Intn(4)]}
+	// pre: fresh non-ephemeral objects only, one successful persist each
+	names := []string{"a", "b", "t1", "x.y-z_0", "topic_with_a_rather_long_name"}
+	np := r.Intn(4)
+	var have []string
+	chans := map[string][]string{}
+	for i := 0; i < np; i++ {
+		if len(have) > 0 && r.Chance(50) {
+			t := have[r.Intn(len(have))]
+			c := fmt.Sprintf("c%d", len(chans[t]))
+			chans[t] = append(chans[t], c)
+			sc.Pre = append(sc.Pre, Op{Kind: "cc", Topic: t, Channel: c})
+		} else if len(have) < len(names) {
+			t := names[len(have)]
+			have = append(have, t)
+			sc.Pre = append(sc.Pre, Op{Kind: "ct", Topic: t})
+		}
+	}
+	g := newGenState()
+	for _, o := range sc.Pre {
+		g.apply(o)
+	}
+	n := 1 + r.Intn(6)
+	for _, o := range genOps(r, g, n) {
+		if o.Kind != "idle" {
+			sc.Post = append(sc.Post, o)
+		}
+	}
+	if len(sc.Post) == 0 {
+		sc.Post = []Op{{Kind: "ct", Topic: "late"}}
+	}
+	return sc
+}
+
 func genLoad(r *lib.Rand, k int) Scenario {
 	sc := Scenario{Name: fmt.Sprintf("load-%d", k), Kind: "load", Present: true, Cut: -1}
 	names := append(append([]string{}, topicPool...), badNames...)
@@ -1242,6 +1286,11 @@ func fixedScenarios() []Scenario {
 				{Kind: "dc", Topic: "t", Channel: "c"}, {Kind: "dt", Topic: "t"}}, Kill: Kill{Mode: "point", Point: p, K: 1}}, obsCycle}})
 	}
 	out = append(out, Scenario{Name: "fixed-lock", Kind: "lock"})
+	out = append(out, Scenario{Name: "fixed-write-fault-channel", Kind: "fault", Limit: 100,
+		Pre:  []Op{{Kind: "ct", Topic: "t"}},
+		Post: []Op{{Kind: "cc", Topic: "t", Channel: "channel_with_a_long_name"}, {Kind: "ct", Topic: "another_topic_with_a_long_name"}}})
+	out = append(out, Scenario{Name: "fixed-write-fault-first-document", Kind: "fault", Limit: 8,
+		Post: []Op{{Kind: "ct", Topic: "t"}, {Kind: "pt", Topic: "t"}, {Kind: "dt", Topic: "t"}}})
 	out = append(out, Scenario{Name: "fixed-K8-mixed-document", Kind: "mix"})
 	out = append(out, Scenario{Name: "fixed-load-empty-file", Kind: "load", Present: true, LoadDoc: Doc{}, Cut: 0})
 	out = append(out, Scenario{Name: "fixed-load-null", Kind: "load", Present: true, LoadDoc: Doc{}, Cut: -1})
@@ -1381,6 +1430,128 @@ func runMix(bin, scratch string, sc Scenario, o *lib.Out) (lib.Case, bool, error
 	return c, !reproduced || k8Listed(), nil
 }
 
+// ---------------------------------------------------------------- write fault in the metadata write protocol
+// After the persists of the [pre] requests the daemon lowers its own RLIMIT_FSIZE (verif
+// hook NSQ_VERIF_FSIZE, SIGXFSZ ignored): every later write of a temp metadata file is cut
+// short and fails with EFBIG while fsync, close and rename still work.  The [post] requests
+// run (idle after each), the daemon is SIGKILLed and restarted.  nsqd.dat must still be the
+// complete document it was when the fault was armed, and the daemon must start on it.
+var nFaultNotArmed int64
+
+// fsizeLimit: the soft RLIMIT_FSIZE of a process as the kernel reports it (max uint64 = unlimited / unknown)
+func fsizeLimit(pid int) uint64 {
+	b, err := os.ReadFile(fmt.Sprintf("/proc/%d/limits", pid))
+	if err != nil {
+		return ^uint64(0)
+	}
+	for _, line := range strings.Split(string(b), "\n") {
+		if strings.HasPrefix(line, "Max file size") {
+			f := strings.Fields(strings.TrimPrefix(line, "Max file size"))
+			if len(f) > 0 {
+				if v, err := strconv.ParseUint(f[0], 10, 64); err == nil {
+					return v
+				}
+			}
+		}
+	}
+	return ^uint64(0)
+}
+
+func readDat(dir string) (*Doc, bool, string) {
+	b, err := os.ReadFile(filepath.Join(dir, "nsqd.dat"))
+	if err != nil {
+		return nil, os.IsNotExist(err), ""
+	}
+	if doc, ok := parseDat(b); ok {
+		return &doc, true, string(b)
+	}
+	return nil, false, string(b)
+}
+
+func runFault(bin, scratch string, sc Scenario) (lib.Case, bool, error) {
+	dir, err := os.MkdirTemp(scratch, "meta-")
+	if err != nil {
+		return lib.Case{}, false, err
+	}
+	defer os.RemoveAll(dir)
+	k := 1 + len(sc.Pre)
+	tag := fmt.Sprintf("fs-%d-%d", k, sc.Limit)
+	d, err := startDaemon(bin, dir, "", nil, false, tag)
+	if err != nil {
+		return lib.Case{}, false, err
+	}
+	if _, ok := d.waitServing(); !ok {
+		d.sigkill()
+		return lib.Case{}, false, fmt.Errorf("fault: daemon did not start\n%s", d.tail())
+	}
+	tags := []string{"kind=fault", fmt.Sprintf("fsize=%d", sc.Limit)}
+	run := func(ops []Op, phase string) error {
+		for _, o := range ops {
+			st, err := doOp(d, o)
+			if err != nil {
+				return fmt.Errorf("fault: request failed: %v", err)
+			}
+			tags = append(tags, fmt.Sprintf("%s=%s/%d", phase, o.Kind, st))
+			if _, ok := d.waitIdle(); !ok {
+				return fmt.Errorf("fault: no idleness\n%s", d.tail())
+			}
+		}
+		return nil
+	}
+	if err := run(sc.Pre, "pre"); err != nil {
+		d.sigkill()
+		return lib.Case{}, false, err
+	}
+	h, _ := d.hits()
+	if h["persist:after-rename"] != k {
+		d.sigkill()
+		return lib.Case{}, false, nil // the arming point was not where it was planned: inconclusive
+	}
+	// the fault must really be armed (the hook may be missing in the tree under test)
+	if fsizeLimit(d.nsqdPid()) != uint64(sc.Limit) {
+		d.sigkill()
+		atomic.AddInt64(&nFaultNotArmed, 1)
+		return lib.Case{}, false, nil
+	}
+	before, _, _ := readDat(dir)
+	if err := run(sc.Post, "post"); err != nil {
+		d.sigkill()
+		return lib.Case{}, false, err
+	}
+	h2, _ := d.hits()
+	d.sigkill()
+	after, afterOK, raw := readDat(dir)
+	d2, err := startDaemon(bin, dir, "", nil, false, "fr")
+	if err != nil {
+		return lib.Case{}, false, err
+	}
+	seen, restarted := d2.waitServing()
+	if !restarted {
+		d2.waitExit(20 * time.Second)
+	}
+	logTail := ""
+	if !restarted {
+		logTail = lastN(d2.tail(), 400)
+	}
+	if d2.alive() {
+		d2.sigkill()
+	}
+	var pre, post []string
+	for _, o := range sc.Pre {
+		pre = append(pre, opCoq(o))
+	}
+	for _, o := range sc.Post {
+		post = append(post, opCoq(o))
+	}
+	coq := fmt.Sprintf("(Fault %s %s %s %s %s %s %s)", lib.CoqList(pre), lib.CoqList(post), coqODoc(before), lib.CoqBool(afterOK),
+		coqODoc(after), lib.CoqBool(restarted), coqDoc(seen))
+	failedWrites := h2["persist:after-tmp-write"] - h2["persist:after-rename"]
+	tags = append(tags, fmt.Sprintf("restarted=%v", restarted))
+	return lib.Case{Name: sc.Name, Coq: coq, Input: sc, Tags: tags, Nontrivial: failedWrites > 0,
+		Obs: map[string]interface{}{"file_after_kill": raw, "file_ok": afterOK, "restarted": restarted, "restart_log": logTail,
+			"persists_started_minus_renamed": failedWrites}}, true, nil
+}
+
 func runScenario(bin, scratch string, sc Scenario) (lib.Case, error) {
 	switch sc.Kind {
 	case "load":
@@ -1394,6 +1565,7 @@ func runScenario(bin, scratch string, sc Scenario) (lib.Case, error) {
 func main() {
 	n := flag.Int("n", 60, "number of generated churn scenarios")
 	nload := flag.Int("nload", 20, "number of generated load cases")
+	nfault := flag.Int("nfault", 8, "number of generated write-fault cases")
 	seed := flag.Uint64("seed", 1, "seed")
 	out := flag.String("out", "", "output jsonl")
 	replay := flag.String("replay", "", "replay file (inputs)")
@@ -1427,6 +1599,9 @@ func main() {
 		for k := 0; k < *nload; k++ {
 			scs = append(scs, genLoad(r, k))
 		}
+		for k := 0; k < *nfault; k++ {
+			scs = append(scs, genFault(r, k))
+		}
 	}
 	sem := make(chan struct{}, *par)
 	var wg sync.WaitGroup
@@ -1439,6 +1614,12 @@ func main() {
 		go func(i int) {
 			defer wg.Done()
 			defer func() { <-sem }()
+			if scs[i].Kind == "fault" {
+				var emit bool
+				results[i], emit, errs[i] = runFault(bin, scratch, scs[i])
+				skip[i] = !emit
+				return
+			}
 			if scs[i].Kind == "mix" {
 				var emit bool
 				results[i], emit, errs[i] = runMix(bin, scratch, scs[i], o)
@@ -1459,6 +1640,7 @@ func main() {
 		o.Emit(c)
 	}
 	o.Stat("daemon_starts", atomic.LoadInt64(&nStarts))
+	o.Stat("write_fault_cases_not_armed", atomic.LoadInt64(&nFaultNotArmed))
 	o.Stat("kills", gstats.kills)
 	o.Stat("idle_points", gstats.idles)
 	o.Stat("directory_samples", gstats.samples)
